@@ -95,7 +95,12 @@ pub fn ri(r: &mut Rng) -> String {
 }
 
 pub fn cursor(r: &mut Rng, cols: usize, rows: usize) -> String {
-    match r.n(17) {
+    match r.n(23) {
+        17 | 18 => ri(r),
+        19 => "\n".to_string(),
+        20 => "\x1bD".to_string(),
+        21 => "\u{85}".to_string(),
+        22 => "\r".to_string(),
         0 => csi1(count(r, rows), "A", r),
         1 => csi1(count(r, rows), "B", r),
         2 => csi1(count(r, cols), "C", r),
